@@ -63,7 +63,9 @@ func genC19(seed uint64) *core.Plan {
 		p.SetKnob("cap", r.Pick(16, 256, 4096))
 		p.SetKnob("stallat", r.Intn(30))
 		p.SetKnob("closeat", -1)
-		p.SetKnob("ws", 0)
+		if r.Chance(1, 2) {
+			p.SetKnob("ws", 0)
+		}
 		if r.Chance(1, 2) {
 			p.SetKnob("timeout", r.Pick(20, 100))
 		} else {
@@ -330,10 +332,10 @@ func runC19(t *testing.T, p *core.Plan) *core.Result {
 			if link.B2A.InFlight() > 0 {
 				acts, w = append(acts, "deliver"), append(w, 4)
 			}
-			if ws && link.A2B.InFlight() > 0 {
+			if ws && link.A2B.InFlight() > 0 && !(stall && steps >= stallAt) {
 				acts, w = append(acts, "deliver-out"), append(w, 3)
 			}
-			if stall && steps < stallAt && link.A2B.InFlight() > 0 {
+			if stall && !ws && steps < stallAt && link.A2B.InFlight() > 0 {
 				acts, w = append(acts, "drain"), append(w, 6)
 			}
 			if stall && peerFin && steps >= stallAt && !finSent {
@@ -380,6 +382,14 @@ func runC19(t *testing.T, p *core.Plan) *core.Result {
 					}
 					link.B2A.Deliver(n)
 					log.Ev("deliver b>a %d", n)
+				case "deliver-out":
+					if n := link.A2B.InFlight(); n > 0 {
+						if sched.Chance(1, 2) {
+							n = 1 + sched.Intn(n)
+						}
+						link.A2B.Deliver(n)
+						log.Ev("deliver a>b %d", n)
+					}
 				case "drain":
 					if n := link.A2B.InFlight(); n > 0 {
 						link.A2B.Deliver(1 + sched.Intn(n))
@@ -503,7 +513,7 @@ func runC19(t *testing.T, p *core.Plan) *core.Result {
 		}
 		rcvDone = isDone(rdone)
 		if !isDone(cdone) {
-			res.Violate("C19", "C19.blocked", "close", "Close is still blocked after one virtual hour")
+			res.Violate("C19", "C19.blocked", "close", fmt.Sprintf("Close is still blocked after one virtual hour; goroutines: %v", core.Leaked()))
 		}
 		if ws {
 			// drain what the connection wrote towards the peer
